@@ -16,8 +16,9 @@ type facts struct {
 	terms map[int]*term.Term
 	memo  map[int]rng
 	bm    map[int]int8
-	empty bool // some term's range became empty: the guard is unsatisfiable
-	check int8 // 0 = not yet checked, 1 = consistent, 2 = inconsistent
+	vals  map[int][]uint64 // exact finite value sets by term id (from equalities and disjunctions of equalities)
+	empty bool             // some term's range became empty: the guard is unsatisfiable
+	check int8             // 0 = not yet checked, 1 = consistent, 2 = inconsistent
 }
 
 // consistent reports false when the facts contradict the structure of the terms they constrain.
@@ -51,7 +52,8 @@ func factsOf(g *term.Term) *facts {
 	if f, ok := factsCache[g.ID]; ok {
 		return f
 	}
-	f := &facts{r: map[int]rng{}, terms: map[int]*term.Term{}, memo: map[int]rng{}, bm: map[int]int8{}}
+	f := &facts{r: map[int]rng{}, terms: map[int]*term.Term{}, memo: map[int]rng{}, bm: map[int]int8{}, vals: map[int][]uint64{}}
+	factsCache[g.ID] = f
 	type sb struct {
 		lo, hi int64
 		has    bool
@@ -193,8 +195,58 @@ func factsOf(g *term.Term) *facts {
 			}
 			if b.IsConst() {
 				tight(a, b.Val, b.Val)
+				f.restrict(a.ID, []uint64{b.Val})
 			} else if a.IsConst() {
 				tight(b, a.Val, a.Val)
+				f.restrict(b.ID, []uint64{a.Val})
+			}
+		case term.OOr:
+			if neg {
+				continue
+			}
+			// a disjunction constrains a term when every disjunct does: take the union
+			subs := make([]*facts, len(c.Args))
+			for i, d := range c.Args {
+				subs[i] = factsOf(d)
+			}
+			for id, r0 := range subs[0].r {
+				u := r0
+				ok := true
+				for _, sf := range subs[1:] {
+					r, has := sf.r[id]
+					if !has {
+						ok = false
+						break
+					}
+					if r.lo < u.lo {
+						u.lo = r.lo
+					}
+					if r.hi > u.hi {
+						u.hi = r.hi
+					}
+				}
+				if ok {
+					tight(subs[0].terms[id], u.lo, u.hi)
+				}
+			}
+			for id, v0 := range subs[0].vals {
+				set := append([]uint64(nil), v0...)
+				ok := true
+				for _, sf := range subs[1:] {
+					v, has := sf.vals[id]
+					if !has {
+						ok = false
+						break
+					}
+					set = unionVals(set, v)
+					if len(set) > 32 {
+						ok = false
+						break
+					}
+				}
+				if ok {
+					f.restrict(id, set)
+				}
 			}
 		}
 	}
@@ -220,6 +272,45 @@ func factsOf(g *term.Term) *facts {
 	}
 	factsCache[g.ID] = f
 	return f
+}
+
+func unionVals(a, b []uint64) []uint64 {
+	out := append([]uint64(nil), a...)
+	for _, x := range b {
+		found := false
+		for _, y := range out {
+			if x == y {
+				found = true
+				break
+			}
+		}
+		if !found {
+			out = append(out, x)
+		}
+	}
+	return out
+}
+
+// restrict intersects the finite value set known for a term.
+func (f *facts) restrict(id int, set []uint64) {
+	cur, ok := f.vals[id]
+	if !ok {
+		f.vals[id] = set
+		return
+	}
+	var out []uint64
+	for _, x := range cur {
+		for _, y := range set {
+			if x == y {
+				out = append(out, x)
+				break
+			}
+		}
+	}
+	f.vals[id] = out
+	if len(out) == 0 {
+		f.empty = true
+	}
 }
 
 func (f *facts) rangeOf(t *term.Term) rng {
@@ -418,6 +509,28 @@ func (f *facts) decide(t *term.Term) int8 {
 		}
 	case term.OEq:
 		if t.Args[0].Sort.K == term.KBV && t.Args[0].W() <= 64 {
+			x, k := t.Args[0], t.Args[1]
+			if x.IsConst() {
+				x, k = k, x
+			}
+			if k.IsConst() {
+				if set, ok := f.vals[x.ID]; ok {
+					in := false
+					for _, v := range set {
+						if v == k.Val {
+							in = true
+						}
+					}
+					if !in {
+						r = 0
+						break
+					}
+					if len(set) == 1 {
+						r = 1
+						break
+					}
+				}
+			}
 			a, b := f.rangeOf(t.Args[0]), f.rangeOf(t.Args[1])
 			if a.hi < b.lo || b.hi < a.lo {
 				r = 0
